@@ -154,6 +154,12 @@ pub fn build(p: CP) -> Scenario<Arc<CS>> {
                 *s.sig_only.lock().unwrap() = Some(a);
                 *s.raw.lock().unwrap() = Some(b);
             }
+            6 => {
+                // an info-carrying instance starts to watch the signal that is being delivered
+                let x = SignalsInfo::<WithRawSiginfo>::new(&[S2]).unwrap();
+                x.add_signal(S1).unwrap();
+                drop(x);
+            }
             5 => {
                 // a signal nobody else uses: registered, given back completely, registered again
                 let id = unsafe { reg::register(S2, || ()) }.unwrap();
@@ -253,15 +259,15 @@ pub fn scenarios(tier: Tier) -> Vec<Item> {
     // few operations passes while anything that waits or loops does not
     let steps = 3 * (8 + 3 + 2 + 14);
     let mut v = Vec::new();
-    for (mi, mname) in ["registry", "iter_new_add_drop", "scans_and_recv", "instance_drop", "last_handle_drop", "reregister_cycle"].iter().enumerate() {
+    for (mi, mname) in ["registry", "iter_new_add_drop", "scans_and_recv", "instance_drop", "last_handle_drop", "reregister_cycle", "raw_instance_adds_delivered_signal"].iter().enumerate() {
         for full in [false, true] {
             if q && full && mi != 2 {
                 continue;
             }
             let name: &'static str = Box::leak(format!("all_actions_vs_{}{}", mname, if full { "_fullpipes" } else { "" }).into_boxed_str());
             v.push(item(
-                build(CP { name, full_pipes: full, mutator: mi as u8, deliveries: 2, bound_steps: if mi == 1 || mi == 4 { steps + 3 * 7 } else { steps }, prefill_deliveries: 0 }),
-                b(2, 3),
+                build(CP { name, full_pipes: full, mutator: mi as u8, deliveries: 2, bound_steps: if mi == 1 || mi == 4 { steps + 3 * 7 } else if mi == 6 { steps + 3 * 14 } else { steps }, prefill_deliveries: 0 }),
+                if mi == 6 { b(1, 2) } else { b(2, 3) },
                 "every built-in action installed; deliveries from another thread and nested (up to 2 deep in time) at every operation boundary of the mutator",
             ));
         }
